@@ -160,7 +160,7 @@ pub fn run(a: &Args, rep: &mut Report) {
     rep.set("helpers", "sqrti");
 
     // ---- rand ----
-    let n_pairs = (n / 200).max(50);
+    let n_pairs = if cfg!(miri) { 10 } else { (n / 200).max(50) };
     for k in 0..n_pairs {
         let (min, max) = match k % 10 {
             0 => (0u64, u64::MAX),
@@ -184,7 +184,7 @@ pub fn run(a: &Args, rep: &mut Report) {
                 (x.min(y), x.max(y))
             }
         };
-        let draws = if q { 200 } else { 2000 };
+        let draws = if cfg!(miri) { 20 } else if q { 200 } else { 2000 };
         let mut lo_seen = u64::MAX;
         let mut hi_seen = 0u64;
         for _ in 0..draws {
@@ -212,7 +212,7 @@ pub fn run(a: &Args, rep: &mut Report) {
     rep.set("helpers", "rand");
 
     // ---- bpf_trace_printf: count the bytes that really reach stdout ----
-    {
+    if !cfg!(miri) {
         use std::io::Write;
         let path = format!("{}.stdout", if a.out.is_empty() { "/tmp/mon_c19".to_string() } else { a.out.clone() });
         let cpath = std::ffi::CString::new(path.clone()).unwrap();
@@ -279,7 +279,7 @@ pub fn run(a: &Args, rep: &mut Report) {
     }
 
     // ---- memfrob / strcmp on guard-paged buffers, in forked children ----
-    let n_mem = (n / 60).max(400) as usize;
+    let n_mem = if cfg!(miri) { 40 } else { (n / 60).max(400) as usize };
     struct MCase {
         kind: u8, // 0 memfrob, 1 strcmp
         a: Vec<u8>,
